@@ -37,6 +37,7 @@ const (
 	shGrep
 	shNegGrep
 	shGrepCount
+	shExistsTwo
 	shNumShapes
 )
 
@@ -107,6 +108,16 @@ func VerifC01Verdict() {
 			sb.WriteString("grep foo c.txt")
 		case shNegGrep:
 			sb.WriteString("! grep foo c.txt")
+		case shExistsTwo:
+			// exists / ! exists with two arguments: present or absent in each position
+			l.cond = rt.IntRange(0, 3)
+			l.neg = rt.Bool()
+			pair := [][2]string{{"a.txt", "b.txt"}, {"a.txt", "nope.txt"}, {"nope.txt", "a.txt"}, {"nope.txt", "nope2.txt"}}[l.cond]
+			pre := "exists "
+			if l.neg {
+				pre = "! exists "
+			}
+			sb.WriteString(pre + pair[0] + " " + pair[1])
 		case shGrepCount:
 			l.cond = rt.IntRange(1, 2)
 			sb.WriteString("grep -count=" + strconv.Itoa(l.cond) + " foo c.txt")
@@ -235,6 +246,13 @@ func VerifC01Verdict() {
 			lineFails = nfoo == 0
 		case shNegGrep:
 			lineFails = nfoo > 0
+		case shExistsTwo:
+			present := [][2]bool{{true, true}, {true, false}, {false, true}, {false, false}}[l.cond]
+			if l.neg {
+				lineFails = present[0] || present[1] // every named file must be absent
+			} else {
+				lineFails = !present[0] || !present[1] // every named file must exist
+			}
 		case shGrepCount:
 			// -count=N demands exactly N matches
 			lineFails = nfoo != l.cond
